@@ -51,7 +51,7 @@ DEVIATIONS = ["none", "ui-header", "signer-header", "one-short", "one-long", "ot
               "other-order", "ui-other-btc-key", "none", "none"]
 KEYS_ALT = ["none", "none", "none", "replace-one", "rename-path", "rename-keeping-order",
             "drop-btc", "empty", "not-object", "invalid-key", "compressed", "extra-key",
-            "other-wallet-paths", "other-wallet-paths"]
+            "other-wallet-paths", "other-wallet-paths", "extra-key-respelled-path"]
 ROOT_ALT = ["none", "none", "none", "other", "broken-self-signature", "expired", "last-second"]
 
 
@@ -161,6 +161,19 @@ def run_one(ch, cfg):
         keys = {p: dev.pubkey_for(path_binary(p)).hex() for p in ch.shuffle(wallet_paths, "wallet.order")}
     elif keys_alt == "extra-key":
         keys["m/44'/0'/0'/0/1"] = Key(scalar(b"extra" + ch.bytes(4, "keys.extra"))).pub65.hex()
+    elif keys_alt == "extra-key-respelled-path":
+        # a seventh key under a name that is one of the six paths spelled differently (leading zeros,
+        # other decimal digits): a different name, hence a different key set - listed before or after
+        # the genuine entry
+        p = ch.pick(sorted(keys), "keys.which")
+        comps = p.split("/")
+        j = ch.pick([5, 2, 1, 3], "respell.component")
+        num, tick = comps[j].rstrip("'"), "'" if comps[j].endswith("'") else ""
+        comps[j] = ch.pick(["0" + num, "00" + num, "".join(chr(0x0660 + int(c)) for c in num),
+                            "".join(chr(0xFF10 + int(c)) for c in num)], "respell.how") + tick
+        extra = {"/".join(comps): Key(scalar(b"respelled" + ch.bytes(4, "keys.extra"))).pub65.hex()}
+        keys = dict(list(extra.items()) + list(keys.items())) if ch.draw(2, "respell.first") == 0 \
+            else dict(list(keys.items()) + list(extra.items()))
     w.fs.put(A.KEYS_JSON, json.dumps(keys).encode())
     doc = A.load_json(w, certfile)
     if drop_target and len(doc["targets"]) > 0:
